@@ -51,6 +51,13 @@ class Raised(Exception):
     """scripted error of a state function / cleanup function"""
 
 
+def _raisers():
+    """exception classes a scripted state / cleanup function raises: own, builtin, SECoP errors"""
+    boot()
+    from frappy.errors import CommunicationFailedError, HardwareError
+    return [Raised, ValueError, KeyError, ZeroDivisionError, HardwareError, CommunicationFailedError]
+
+
 # ------------------------------------------------------------------ the machine under test
 
 class World:
@@ -130,6 +137,12 @@ class World:
     # -- operations
     def post(self, task, bad=None):
         """bad: additionally pass this keyword, which collides with a class attribute of StateMachine"""
+        try:
+            self._post(task, bad)
+        except BaseException as e:   # noqa: start()/stop() raising anything else is an observation
+            self.events.append({'ev': 'raised', 'where': 'post', 'exc': repr(e)})
+
+    def _post(self, task, bad):
         if task['k'] == 'stop':
             self.sm.stop()
         else:
@@ -305,7 +318,7 @@ def _rand_plan(seed, reentrant, chain=0.0):
             elif r < 0.85:
                 b = {'k': 'next', 's': rnd.choice(T_STATES)}
             elif r < 0.93:
-                b = {'k': 'raise', 'exc': rnd.choice([Raised, ValueError, KeyError, RuntimeError])}
+                b = {'k': 'raise', 'exc': rnd.choice(_raisers())}
             else:
                 b = {'k': 'noncallable', 'value': rnd.choice(NONCALLABLES)}
         else:
@@ -314,7 +327,7 @@ def _rand_plan(seed, reentrant, chain=0.0):
             elif r < 0.8:
                 b = {'k': 'next', 's': rnd.choice(['K1', 'K2'])}
             elif r < 0.9:
-                b = {'k': 'raise', 'exc': rnd.choice([Raised, ZeroDivisionError])}
+                b = {'k': 'raise', 'exc': rnd.choice(_raisers())}
             else:
                 b = {'k': 'noncallable', 'value': rnd.choice(NONCALLABLES[:1] + NONCALLABLES[2:])}
         b['post'] = post
@@ -678,10 +691,22 @@ class HSWorld:
                 return self.mod.final_status()          # the defaults
             return self.mod.final_status(self.code(code), text)
         if k == 'raise':
-            raise Raised('scripted')
+            raise b.get('exc', Raised)('scripted')
+        if k == 'noncallable':
+            return b.get('value', 42)
         return getattr(self.mod, b['s'])
 
     def op(self, op, nested=False):
+        """one operation on the module.  An exception leaving doPoll / start_machine / stop_machine / stop is an
+        observation (event `raised`, which no action of the spec explains), never a failure of the harness"""
+        try:
+            self._op(op)
+        except BaseException as e:   # noqa
+            self.events.append({'ev': 'raised', 'where': op['op'], 'exc': repr(e)})
+        if not nested:
+            self.quiet()
+
+    def _op(self, op):
         mod = self.mod
         if op['op'] == 'start':
             kw = {'cleanup': mod.my_cleanup} if op['c'] == 'K' else {}
@@ -708,8 +733,6 @@ class HSWorld:
         else:
             mod.doPoll()
             self.events.append({'ev': 'polled'})
-        if not nested:
-            self.quiet()
 
     def quiet(self):
         sm = self.mod._state_machine
@@ -750,7 +773,9 @@ def _hs_plan(seed, reentrant, quick=0.0):
             else:
                 b = {'k': 'raise'}
         else:
-            b = {'k': 'none'} if r < 0.4 else {'k': 'next', 's': rnd.choice(HS_STATES[3:])} if r < 0.9 else {'k': 'raise'}
+            b = {'k': 'none'} if r < 0.35 else {'k': 'next', 's': rnd.choice(HS_STATES[3:])} if r < 0.75 else \
+                {'k': 'noncallable', 'value': rnd.choice(NONCALLABLES[:1] + NONCALLABLES[2:])} if r < 0.83 else \
+                {'k': 'raise', 'exc': rnd.choice(_raisers())}
         b['post'] = post
         return b
     return plan
@@ -858,6 +883,7 @@ def _hs_classify(trace, l, mode='preempt'):
     sig = {'event': ev.get('ev')}
     if ev.get('ev') == 'raised':
         sig['exc'] = ev['exc'].split('(')[0] + (':Stop.newstate' if "'Stop' object has no attribute 'newstate'" in ev['exc'] else '')
+        sig['where'] = ev.get('where', 'doPoll')
     elif ev.get('ev') == 'update':
         sig['busy'] = ev['busy']
         if ev.get('own'):
@@ -887,7 +913,10 @@ def _classify(trace, l):
     if ev.get('ev') == 'post' and ev.get('bad', '-') != '-':
         return {'event': 'post', 'forbidden_keyword': 'accepted'}
     prev = [e['ev'] for e in trace[max(0, l - 3):l - 1]]
-    return {'event': ev.get('ev'), 'after': prev[-1] if prev else None}
+    sig = {'event': ev.get('ev'), 'after': prev[-1] if prev else None}
+    if ev.get('ev') == 'raised':          # an exception left cycle() / start() / stop()
+        sig.update(exc=str(ev.get('exc', '')).split('(')[0], where=ev.get('where', 'cycle'))
+    return sig
 
 
 def run(chk):
